@@ -31,7 +31,7 @@ RULE = (
     "{off,on} x batch_size {None,<n,=n,>n} x retries {0,1,2} x input {list, one-shot iterator} x return_stats x processing "
     "order of same-round completions {original first, backup first, reversed, native set order} x 6 future-hash permutations "
     "(iteration order of cubed's sets of futures). Thorough additionally "
-    "enumerates completely: 10 fast fillers + 1..2 scripted inputs (3 in a reduced option set) over the 3x3 alphabet "
+    "enumerates completely: 10 fast fillers + 1..2 scripted inputs (3 under a reduced option set) over the 3x3 alphabet "
     "{fast,tie,20x} x {0, retries, retries+1 failures} for original and backup, all option combinations. "
     "Non-trivial = at least one attempt really failed or at least one backup was really launched in the run; distinct = "
     "canonical JSON of the case. Tier B: f in 0..4 injected IO faults on one chunk key (read or write) of a small real "
@@ -446,16 +446,17 @@ def enum_cases(m, retries, use_backups, reduced=False):
     n = N0 + m
     al = alphabet(retries)
     per_input = list(itertools.product(al, al)) if use_backups else [(a, None) for a in al]
-    if reduced:
-        batches = [None, 10]
-        orders = ["of", "bf"]
+    if reduced == "pairs":
+        # two (batch_size, same-round order) combinations per script
+        combos = [(None, "of", False), (10, "bf", False)]
         positions = ["last"]
-        iters = [False]
+    elif reduced:
+        combos = [(bs, o, False) for bs in (None, 10) for o in ("of", "bf")]
+        positions = ["last"]
     else:
-        batches = [None, 5, 10, n, n + 3]
         orders = ["of", "bf", "rof", "rbf"] if use_backups else ["of", "rof"]
-        positions = ["last", "first"] if m < n else ["last"]
-        iters = [False, True]
+        combos = [(bs, o, it) for bs in (None, 5, 10, n, n + 3) for o in orders for it in (False, True)]
+        positions = ["last", "first"]
     for combo in itertools.product(per_input, repeat=m):
         for pos in positions:
             idx = list(range(N0, n)) if pos == "last" else list(range(m))
@@ -464,11 +465,9 @@ def enum_cases(m, retries, use_backups, reduced=False):
                 scripts.append([i, 0, o[0], _dur(o[0]), o[1]])
                 if b is not None:
                     scripts.append([i, 1, b[0], _dur(b[0]), b[1]])
-            for bs in batches:
-                for order in orders:
-                    for it in iters:
-                        yield {"kind": "script", "n": n, "retries": retries, "use_backups": use_backups, "batch_size": bs,
-                               "as_iter": it, "return_stats": False, "order": order, "scripts": scripts}
+            for (bs, order, it) in combos:
+                yield {"kind": "script", "n": n, "retries": retries, "use_backups": use_backups, "batch_size": bs,
+                       "as_iter": it, "return_stats": False, "order": order, "scripts": scripts}
 
 
 def enum_slices():
@@ -482,10 +481,10 @@ def enum_slices():
     for retries in (0, 1, 2):
         for part in range(len(alphabet(retries))):
             out.append({"m": 2, "retries": retries, "use_backups": True, "reduced": False, "part": part})
-    # m = 3 with backups: reduced option set (retries=1, batch_size {None,10}, two same-round orders)
+    # m = 3 with backups: reduced option set (retries=1; (batch_size None, original first) and (batch_size 10, backup first))
     for part in range(len(alphabet(1))):
         for part2 in range(3):
-            out.append({"m": 3, "retries": 1, "use_backups": True, "reduced": True, "part": part, "part2": part2})
+            out.append({"m": 3, "retries": 1, "use_backups": True, "reduced": "pairs", "part": part, "part2": part2})
     return out
 
 
@@ -737,7 +736,7 @@ def run_shard(spec, seed, tier) -> Acc:
             f"{N0} fast fillers + m scripted inputs (first or last positions), each with original and backup script over "
             "{fast,tie,20x} x {0,retries,retries+1 failures}; m in {1,2}: retries {0,1,2} x use_backups x batch_size "
             "{None,5,10,n,n+3} x 4 same-round orders x list/iterator, enumerated completely; m=3: without backups completely, "
-            "with backups for retries=1, batch_size {None,10}, 2 orders"
+            "with backups all 9^6 scripts for retries=1 under (batch_size None, original first) and (batch_size 10, backup first)"
         )
         return acc
     if spec["kind"] == "fault":
